@@ -330,9 +330,9 @@ def run(ctx):
         ctx.check("bijection", back == ivs, "global-offset/to_local(from_local)-intervals", "to_local_interval(from_local_interval(x)) != x: %r" % [(a, b) for a, b in zip(back, ivs) if a != b][:4],
                   {"sizes": sizes}, (tuple(sizes.items()), "iv-rt"))
 
-    for i in range(ctx.share(ctx.pick(300, 10000))):
+    for i in range(ctx.share(ctx.pick(1200, 20000))):
         ctx.run_case(one, {"seed": rng.randrange(2 ** 40)})
-    for i in range(ctx.share(ctx.pick(64, 2000))):
+    for i in range(ctx.share(ctx.pick(192, 3000))):
         ctx.run_case(bijection, {"seed": rng.randrange(2 ** 40)})
     ctx.sample({"example": {"sizes": {"chr1": 10, "chr10": 5}, "intervals": [["chr1", 8, 10], ["chr10", 0, 5]], "ops": "mask, pileup, merged(0|d), clip, extended_to_size, sorted, get_location, get_windows, array[intervals], sequence[intervals], Geometry.*"}})
     ctx.floor("judged:merged", ctx.pick(100, 3000))
